@@ -172,6 +172,18 @@ class RealMachine(object):
             r = operator.iadd(a, b)
             V[st['a']] = r
             return 'inplace', r, [a, b]
+        elif op == 'observe':
+            # read-only use of a variable between two operations (print it, take its Hill form, read
+            # its derived values): must not change what any later operation returns
+            v = V[st['src']]
+            for read in (str, repr, lambda f: f.hill, lambda f: str(f.hill), lambda f: f.atoms,
+                         lambda f: f.mass, lambda f: f.charge, lambda f: f.mass_fraction,
+                         lambda f: f.natural_density, lambda f: f.molecular_mass):
+                try:
+                    read(v)
+                except Exception:
+                    pass
+            return 'observe', v, [v]
         else:
             raise ValueError('unknown statement %r' % (op,))
         V.append(r)
@@ -220,6 +232,8 @@ class ShadowMachine(object):
 
     def step(self, st):
         op = st['op']
+        if op == 'observe':
+            return  # a read changes nothing
         if op == 'atom':
             k = tuple(st['key'])
             self._new({k: Fraction(1)}, [(Fraction(1), k)])
@@ -422,6 +436,8 @@ class ProgramGen(object):
             r = rng.random()
             if nv == 0 or (nv == 1 and r < 0.5) or r < 0.22:
                 st = self.leaf(pool)
+            elif rng.random() < 0.15:
+                st = {'op': 'observe', 'src': rng.randrange(nv)}
             else:
                 i, j = rng.randrange(nv), rng.randrange(nv)
                 r = rng.random()
